@@ -22,7 +22,7 @@ SPEC = dict(
         "initial {pep440_version} text is what bumpver itself renders for the current version (setup only)",
         "one case in eight is a legacy {..} layout (decorated {version} patterns, own and shared lines, LF/CRLF/CR)",
     ],
-    required=["update_ok", "show_ok", "updates_where_a_pattern_also_matches_inside_another_occurrence", "updates_with_listed_config_file_lacking_the_own_line_pattern", "set_version_in_noncanonical_spelling", "updates_with_repeated_pattern_in_mixed_eol_file", "aliased_path_entry_updates", "updates_with_end_anchored_patterns", "shared_line_updates", "updates_with_a_pattern_on_several_lines",
+    required=["update_ok", "show_ok", "updates_with_config_file_listed_under_another_spelling", "updates_where_a_pattern_also_matches_inside_another_occurrence", "updates_with_listed_config_file_lacking_the_own_line_pattern", "set_version_in_noncanonical_spelling", "updates_with_repeated_pattern_in_mixed_eol_file", "aliased_path_entry_updates", "updates_with_end_anchored_patterns", "shared_line_updates", "updates_with_a_pattern_on_several_lines",
               "legacy_updates_ok", "legacy_shared_line_updates"],
     anchors=[("parse", "iter_matches"), ("v2rewrite", "rewrite_lines"), ("v2patterns", "normalize_pattern"),
              ("config", "_parse_raw_config")],
@@ -210,6 +210,8 @@ def run_case(ctx, case):
             ctx.count("aliased_path_entry_updates")
         if m.get("end_anchored_patterns"):
             ctx.count("updates_with_end_anchored_patterns")
+        if m.get("cfg_listed_under_alias"):
+            ctx.count("updates_with_config_file_listed_under_another_spelling")
         if m.get("own_line_pattern_left_to_bumpver"):
             ctx.count("updates_with_listed_config_file_lacking_the_own_line_pattern")
         if m.get("repeated_occurrences"):
